@@ -51,7 +51,22 @@ def resolve_in_ctor(facts, agg, chain):
             return None
         names = [f["name"] for f in facts.struct_fields(adt)]
         if fld not in names:
-            return None
+            # the field lives in a grouping sub-struct (flattened by the fact loader): descend through it
+            hit = None
+            for (P, g), S in facts.embeds.items():
+                if P != adt or g not in names:
+                    continue
+                for (S2, f2), (P2, role) in facts.aliases.items():
+                    if S2 == S and role == fld:
+                        hit = (g, S, f2)
+            if hit is None:
+                return None
+            sub = look(v[3][names.index(hit[0])])
+            if sub[0] != "agg" or sub[1] != hit[1]:
+                return None
+            snames = [f["name"] for f in facts.struct_fields(hit[1])]
+            v = sub[3][snames.index(hit[2])]
+            continue
         v = v[3][names.index(fld)]
     return look(v)
 
